@@ -91,6 +91,8 @@ u.extract(T, 'impl Ty::fn can_fit_into', wrap=('impl Ty {', '}'), elide=CF_ELIDE
     ensures
         // N1a  two nominal types of the same kind with different uids never mix
         (same_kind_nominal(*self, *expected) && nominal_uid(*self) != nominal_uid(*expected)) ==> !res,
+        // N3   ... also when they are the element types of fixed-size arrays (any nesting depth)
+        nominal_clash(*self, *expected) ==> !res,
         // N1b  nothing nominal fits into a (different) enum variant
         (is_nominal_value(*self) && *expected is EnumVariant && !same_nominal(*self, *expected)) ==> !res,
         // N1c  a distinct / variant does not fit into a named struct or into an enum that is not its own
@@ -105,9 +107,10 @@ u.extract(T, 'impl Ty::fn can_fit_into', wrap=('impl Ty {', '}'), elide=CF_ELIDE
         // N2   the exception: a variant fits into its own enum
         variant_of(*self, *expected) ==> res,
     decreases *self, *expected
-''')
+''', inserts=[('@body_start', 'after', ' proof { lemma_no_self_clash(*self); } ')])
 
 MUTANTS = [
+    (T, '            ) => found_size == expected_size && found_ty.can_fit_into(expected_ty),', '            ) => found_size == expected_size && found_ty.is_functionally_equivalent_to(expected_ty, false),', 'violation'),
     (T, '            (_, Ty::EnumVariant { .. }) => false,\n', '', 'violation'),   # the repaired defect, re-introduced
     (T, """                Ty::ConcreteStruct {
                     uid: expected_uid, ..
